@@ -186,6 +186,20 @@ pub fn run(a: &Args) {
         let cls = if k.unsigned_abs() > 1 { "mul" } else { "plain" };
         out.emit(span_ops(s, other, k, cls));
     }
+    // a small value of one unit times a factor at the limit of ANY unit (a multiplier is in range for a unit
+    // iff the product is: the limit that applies is the multiplied unit's own, not a neighbour's)
+    for i in 0..10 {
+        for j in 0..10 {
+            for v in [1i64, 2, -1] {
+                let mut u = [0i64; 10];
+                u[i] = v.abs();
+                let Some(sp) = crate::civ::mkspan(u, v < 0) else { continue };
+                for k in [LIM[j].1 - 1, LIM[j].1, LIM[j].1.saturating_add(1), -LIM[j].1, LIM[j].1 / 2] {
+                    out.emit(span_ops(sp, sp, k, "mul-at-a-limit"));
+                }
+            }
+        }
+    }
     // ---- SignedDuration ---------------------------------------------------------------------
     let pool = sd_pool(&mut rng, if quick { 300 } else { 4000 });
     for (i, &x) in pool.iter().enumerate() {
